@@ -102,6 +102,10 @@ def gen_steps(rng, info, n, p_opt, allow_gen_interleave=True, p_reopen=0.15):
             if len(idx) > 1 and rng.random() < 0.2:
                 idx = idx[:-1]
             st["fonts"] = idx
+            if info["layers"] and rng.random() < 0.35:
+                # a sparse master given through the list API: (font, layerName)
+                st["fonts"] = idx + [0]
+                st["opts"]["layerNames"] = [None] * len(idx) + [rng.choice(info["layers"])]
             x = rng.random()
             if x < 0.35 and allow_gen_interleave:
                 st["consume"] = rng.randint(0, len(idx))
@@ -131,7 +135,8 @@ def gen_scenario(seed, profile=None):
                      "jumps": [rng.choice([1, 60, 86400, -3600, 0.5]) for _ in range(3)]}}
     n = rng.randint(profile.get("min_steps", 3), profile.get("max_steps", 7))
     p_opt = rng.choice([0.1, 0.25, 0.4, 0.6])
-    steps = gen_steps(rng, info, n, p_opt)
+    # lazily loaded fonts only read the disk on first use: reopen more often there
+    steps = gen_steps(rng, info, n, p_opt, p_reopen=0.4 if mode in ("u2lazy", "u2disk") else 0.12)
     return {"id": sid, "seed": seed, "property": PROP, "world": {"spec": spec}, "mat": mat,
             "env": env, "steps": steps}, rng
 
@@ -252,6 +257,9 @@ def summarise_events(scn, res, stats):
             stats["gen_resumed"] = stats.get("gen_resumed", 0) + 1
         if st["op"] == "compileInterpolatableTTFs" and st.get("consume", "all") != "all":
             stats["gen_abandoned_or_parked"] = stats.get("gen_abandoned_or_parked", 0) + 1
+    seq = [(st["op"], (st.get("fault") or {}).get("kind"), (ev.get("outcome") or "")[:4])
+           for st, ev in zip(scn["steps"], res["events"])]
+    stats.setdefault("interleavings", set()).add(_digest([scn["mat"]["mode"], seq]))
     stats["sim_seconds"] = stats.get("sim_seconds", 0.0) + res["clock"].get("covered_s", 0.0)
     stats["clock_reads"] = stats.get("clock_reads", 0) + res["clock"].get("reads", 0)
     for k in res["known"]:
@@ -291,6 +299,7 @@ def run_seed(seed, profile=None, scratch_root=None):
             "outcomes": [[e.get("outcome"), e.get("fired")] for e in res["events"]],
         }
     stats["sites"] = sorted(stats.get("sites", ()))
+    stats["interleavings"] = sorted(stats.get("interleavings", ()))
     stats["distinct"] = sorted(stats.get("distinct", ()), key=repr)
     out["stats"] = stats
     out["log_digest"] = _digest([[e.get("op"), e.get("outcome"), e.get("fired"), e.get("extent"), e.get("diffs")]
